@@ -1,3 +1,4 @@
+import codecs
 import io
 import logging
 import re
@@ -314,6 +315,17 @@ class PDFConverter(PDFLayoutAnalyzer, Generic[IOType]):
         self.outfp: IOType = outfp
         self.codec = codec
         self.outfp_binary = self._is_binary_stream(self.outfp)
+        self._encoder: Optional[codecs.IncrementalEncoder] = None
+
+    def _encode(self, text: str, errors: str = "strict") -> bytes:
+        """Encode one piece of the output.
+
+        A single incremental encoder serves the whole stream, so codecs that
+        start with a byte order mark (utf-16, utf-32) emit it only once.
+        """
+        if self._encoder is None:
+            self._encoder = codecs.getincrementalencoder(self.codec)(errors)
+        return self._encoder.encode(text)
 
     @staticmethod
     def _is_binary_stream(outfp: AnyIO) -> bool:
@@ -349,7 +361,7 @@ class TextConverter(PDFConverter[AnyIO]):
     def write_text(self, text: str) -> None:
         text = utils.compatible_encode_method(text, self.codec, "ignore")
         if self.outfp_binary:
-            cast(BinaryIO, self.outfp).write(text.encode(self.codec, "ignore"))
+            cast(BinaryIO, self.outfp).write(self._encode(text, "ignore"))
         else:
             cast(TextIO, self.outfp).write(text)
 
@@ -459,7 +471,7 @@ class HTMLConverter(PDFConverter[AnyIO]):
 
     def write(self, text: str) -> None:
         if self.codec:
-            cast(BinaryIO, self.outfp).write(text.encode(self.codec))
+            cast(BinaryIO, self.outfp).write(self._encode(text))
         else:
             cast(TextIO, self.outfp).write(text)
 
@@ -736,7 +748,7 @@ class XMLConverter(PDFConverter[AnyIO]):
 
     def write(self, text: str) -> None:
         if self.codec:
-            cast(BinaryIO, self.outfp).write(text.encode(self.codec))
+            cast(BinaryIO, self.outfp).write(self._encode(text))
         else:
             cast(TextIO, self.outfp).write(text)
 
@@ -917,7 +929,7 @@ class HOCRConverter(PDFConverter[AnyIO]):
 
     def write(self, text: str) -> None:
         if self.codec:
-            encoded_text = text.encode(self.codec)
+            encoded_text = self._encode(text)
             cast(BinaryIO, self.outfp).write(encoded_text)
         else:
             cast(TextIO, self.outfp).write(text)
